@@ -2,6 +2,7 @@
 From Coq Require Import List QArith Qabs ZArith Bool Permutation.
 From PV Require Import Base.Text Spec.Hier Model.Transform Model.Geom Proofs.C14geom.
 Import ListNotations.
+From Coq Require Import Psatz.
 Local Open Scope Q_scope.
 
 (* atom distance is symmetric and Euclidean (the squared distance is the sum of the squared coordinate differences) *)
@@ -41,6 +42,30 @@ Proof. exact L14_contact_spec. Qed.
 Theorem C14_contacts_symmetric : forall p d2 a b, in_contact p d2 a b = in_contact p d2 b a.
 Proof. exact L14_contact_sym. Qed.
 
+(* every cut-off: against a cut-off that is not positive no two chains are in contact, and for a positive one comparing the squares
+   is comparing the distances *)
+Lemma existsb_all_false {A} (f : A -> bool) l : (forall x, f x = false) -> existsb f l = false.
+Proof. intros H. induction l as [|x r IH]; [reflexivity|]. cbn [existsb]. now rewrite H, IH. Qed.
+Theorem C14_contacts_nonpositive_cutoff : forall p c a b, c <= 0 -> in_contact p (cutoff_d2 c) a b = false.
+Proof.
+  intros p c a b Hc. unfold cutoff_d2. apply Qle_bool_iff in Hc. rewrite Hc.
+  assert (Hclose : forall c1 c2, close 0 c1 c2 = false).
+  { intros c1 c2. unfold close. apply existsb_all_false. intros x. apply existsb_all_false. intros y.
+    destruct (Qlt_le_dec (adist2 x y) 0) as [H|H]; [|reflexivity]. exfalso. unfold adist2 in H.
+    exact (Qlt_not_le _ _ H (C14_dist2_nonneg _ _)). }
+  unfold in_contact. destruct (negb (text_eqb a b)); [|reflexivity]. cbn [andb].
+  apply existsb_all_false. intros c1. destruct (text_eqb (ch_id c1) a); [|reflexivity]. cbn [andb].
+  apply existsb_all_false. intros c2. rewrite Hclose. apply andb_false_r.
+Qed.
+Theorem C14_cutoff_squares : forall d c, 0 <= d -> 0 < c -> (d * d < cutoff_d2 c <-> d < c).
+Proof.
+  intros d c Hd Hc. unfold cutoff_d2. destruct (Qle_bool c 0) eqn:E.
+  - apply Qle_bool_iff in E. exfalso. exact (Qlt_not_le _ _ Hc E).
+  - split; intros H.
+    + destruct (Qlt_le_dec d c) as [L|L]; [exact L|]. exfalso. apply (Qlt_not_le _ _ H). nra.
+    + nra.
+Qed.
+
 (* the spatial trees: rstar's contract, stated as hypotheses about an arbitrary tree implementation, gives the brute-force
    scan; what pdbtbx adds - the envelope of an atom is its position and distance_2 is the squared Euclidean distance to
    that same point - is what the contract requires of the stored objects *)
@@ -69,3 +94,5 @@ Print Assumptions C14_bbox_tight.
 Print Assumptions C14_contacts_exact.
 Print Assumptions C14_contacts_symmetric.
 Print Assumptions C14_rtree_brute_force.
+Print Assumptions C14_contacts_nonpositive_cutoff.
+Print Assumptions C14_cutoff_squares.
